@@ -51,6 +51,7 @@ namespace vh
             return z ^ (z >> 31);
         }
         uint64_t below(uint64_t n) { return next() % n; }
+        double unit() { return (double)(next() >> 11) * (1.0 / 9007199254740992.0); }
     };
     inline uint64_t mix(uint64_t a, uint64_t b)
     {
